@@ -182,15 +182,7 @@ impl Method for PhoneticMethod {
                 return Suggestion::empty();
             }
 
-            let suggestion = self.create_suggestion(data, config);
-
-            if suggestion.is_empty() {
-                // Nothing is left to show (only escape characters remain), so the
-                // frontend sees an empty suggestion: end the input session too.
-                self.buffer.clear();
-            }
-
-            suggestion
+            self.create_suggestion(data, config)
         } else {
             Suggestion::empty()
         }
